@@ -217,6 +217,22 @@ def enumerate_all(ck, tmp):
             for desc in ([name], [first, name], [name, first], list(pol) + [name]):
                 for_reqs.append(["encode", "SuitRepPolicy", desc, [], []])
                 for_meta.append(("reporting-policy", "SuitRepPolicy", name, desc))
+    # ... and a bit named twice is that bit once: the list is a set of flags (their union), not a sum
+    if pol and "SuitRepPolicy" in cl:
+        names_ = list(pol)
+        dup_cases = [[n, n] for n in names_] + [[names_[0], names_[1], names_[0]], names_ + names_, [names_[-1]] * 3]
+        dres = interp.model_batch(ck, [["encode", "SuitRepPolicy", dc, [], []] for dc in dup_cases])
+        for dc, mr in zip(dup_cases, dres):
+            ires = interp.run_impl(interp.impl_encode, "SuitRepPolicy", dc)
+            want = 0
+            for n in dc:
+                want |= pol[n]
+            ck.count("policy-union", tuple(dc), nontrivial=True, sample={"list": dc, "union": want})
+            if mr != ires and not any(b[1] == "Interp.from_obj/to_cbor (policy)" for b in ck.broken):
+                ck.broken.append(("corr", "Interp.from_obj/to_cbor (policy)", f"SuitRepPolicy {dc}: model {short(mr)} implementation {short(ires)}"))
+            if ires[0] != "ok" or ires[1] != cbor2.dumps(want):
+                fails.append({"input": {"space": "reporting-policy", "class": "SuitRepPolicy", "description": dc},
+                              "observed": f"encoded as {short(ires)}", "expected": f"the union of the named bits, {want}"})
     mres = interp.model_batch(ck, for_reqs)
     for (sp, cname, name, desc), mr in zip(for_meta, mres):
         ires = interp.run_impl(interp.impl_encode, cname, desc)
